@@ -1453,3 +1453,31 @@ Fixpoint stop_code (st : conn) (ls : list (label * expect)) : N :=
     end
   end.
 Definition diag_stop (c : dispatch_case) : N := let '(ro, push, ls, _) := c in stop_code (init ro push) ls.
+
+(* A client built with Builder::initial_stream_id starts its identifiers elsewhere: the same checks from that
+   initial state (the step function and every theorem about it are independent of the initial state). *)
+Definition init_from (r : role) (push_local : bool) (first : option N) : conn :=
+  match first with
+  | None => init r push_local
+  | Some f =>
+    mkC r push_local true [] [] (Some f) (Some (if is_server r then 1 else 2)) MAX_ID MAX_ID None None
+  end.
+
+Definition dispatch_case_from := (option N * dispatch_case)%type.
+
+Definition diag_dispatch_from (c : dispatch_case_from) : N :=
+  let '(first, (ro, push, ls, fin)) := c in
+  let r := check_run (init_from ro push first) 0 ls in
+  if negb (r =? 0) then r
+  else match fin, run_labels (init_from ro push first) ls with
+       | Some f, Some st => if final_matches st f then 0 else 7
+       | _, _ => 0
+       end.
+
+Definition check_dispatch_from (c : dispatch_case_from) : bool := diag_dispatch_from c =? 0.
+
+Definition diag_stop_from (c : dispatch_case_from) : N :=
+  let '(first, (ro, push, ls, _)) := c in stop_code (init_from ro push first) ls.
+
+Lemma init_from_none r p : init_from r p None = init r p.
+Proof. reflexivity. Qed.
